@@ -175,27 +175,24 @@ theorem C19_scan (o : ListOpts) (path : Bytes) (entries : List Entry)
     directory without dangling links and candidates of one digit width (two or more): the same
     answer. -/
 theorem C19_find (lookup : Bytes → DirSpec) (pat : Bytes) (st : PadStyle) (fs : Seq) (entries : List Entry)
-    (hp : Seq.parse st pat = .ok fs) (hl : lookup fs.dir = some entries)
+    (hp : Seq.parse st pat = .ok fs) (hl : lookup (openDir fs.dir) = some entries)
     (hdir : fs.dir.isEmpty = true ∨ isSuffixOf ['/'] fs.dir = true)
     (hnd : ∀ e ∈ entries, e.kind ≠ .dangling)
     (hdom : CppScan.BucketsDom (scanItems ⟨false, false, st⟩ (some fs)
         ((entries.filter fun e => e.kind = .file ∨ e.kind = .linkFile).map
-          fun e => ⟨dirPrefix fs.dir, e.name⟩) [] [])) :
+          fun e => ⟨dirPrefix (openDir fs.dir), e.name⟩) [] [])) :
     Cpp.find lookup pat st = findSequenceOnDisk lookup pat st false false := by
   obtain ⟨gs, cs, hgo, hcpp, hrel, hinv, hcinv⟩ :=
-    CppScan.scanT_sim ⟨false, false, st⟩ ⟨false, false, .hash4⟩ rfl fs (dirPrefix fs.dir) entries [] [] []
+    CppScan.scanT_sim ⟨false, false, st⟩ ⟨false, false, .hash4⟩ rfl fs (dirPrefix (openDir fs.dir)) entries [] [] []
       hnd .nil (fun _ h => by cases h) (fun _ h => by cases h)
   have hd : ∀ g ∈ gs, CppScan.BucketDom g := by rw [hgo] at hdom; exact hdom
-  have hroot : Cpp.rootOf fs.dir = fs.dir := by
-    unfold Cpp.rootOf
-    rcases hdir with h | h <;> simp [h]
   obtain ⟨h1, h2⟩ := CppScan.buckets_out2 st .hash4 fs.dir hdir gs cs hrel hinv hcinv hd
   have hany : (entries.any fun e => e.kind = .dangling) = false := by
     rw [List.any_eq_false]
     intro e he
     simpa using hnd e he
   unfold Cpp.find findSequenceOnDisk scanDir findInItems
-  simp only [hp, hl, hany, Bool.false_eq_true, if_false, hcpp, hroot, h1]
+  simp only [hp, hl, hany, Bool.false_eq_true, if_false, hcpp, h1]
   rw [hgo]
   simp only [bind, Except.bind, pure, Except.pure, h2, List.append_nil]
   rw [CppScan.pick_eq st fs.base fs.ext gs hd]
@@ -207,7 +204,7 @@ theorem C19_find (lookup : Bytes → DirSpec) (pat : Bytes) (st : PadStyle) (fs 
 theorem C19_find_rejects (lookup : Bytes → DirSpec) (pat : Bytes) (st : PadStyle) :
     (∀ e, Seq.parse st pat = .error e →
       Cpp.find lookup pat st = .ok none ∧ findSequenceOnDisk lookup pat st false false = .ok none) ∧
-    (∀ fs, Seq.parse st pat = .ok fs → lookup fs.dir = none →
+    (∀ fs, Seq.parse st pat = .ok fs → lookup (openDir fs.dir) = none →
       Cpp.find lookup pat st = .error .io ∧ findSequenceOnDisk lookup pat st false false = .error .io) := by
   refine ⟨?_, ?_⟩
   · intro e he
@@ -226,7 +223,7 @@ def findDomOk (st : PadStyle) (pat : Bytes) (entries : List Entry) : Bool :=
     decide (∀ e ∈ entries, e.kind ≠ .dangling) &&
     decide (CppScan.BucketsDom (scanItems ⟨false, false, st⟩ (some fs)
       ((entries.filter fun e => e.kind = .file ∨ e.kind = .linkFile).map
-        fun e => ⟨dirPrefix fs.dir, e.name⟩) [] []))
+        fun e => ⟨dirPrefix (openDir fs.dir), e.name⟩) [] []))
 
 /-- they are satisfiable, and there the port (scanning in the default style) and the Go library
     (scanning in the caller's hash1 style) give the same, non-trivial answer -/
